@@ -2,7 +2,8 @@
 
     Every place where src/lru/raw.rs calls user code is a [tick]: hashing and comparing keys inside
     the hash map ([THash]: BuildHasher, Hash and Eq; consecutive calls with no store in between
-    are one tick), the eviction callback ([TCb]), dropping a key ([TDropK]) or a value ([TDropV]).  A fuse
+    are one tick), the eviction callback ([TCb]), dropping a key ([TDropK]) or a value ([TDropV]); [TClone] is
+    [Clone] of a key or a value (used by the programs of FaultProg.v; no RawLRU operation of this file calls it).  A fuse
     selects one tick; when it is reached the operation stops with [FPanic h q], the heap and the
     list descriptor at that moment — what unwinding leaves behind, since nothing the library holds
     by raw pointer has a destructor.  [unwrap()] on [None] is a panic too.  [FErr] is a memory error
@@ -33,9 +34,9 @@ Definition lift {A} (h : heap) (q : hlru) (r : hres A) : fres A :=
   | HErr e => FErr e
   end.
 
-Inductive tclass := THash | TCb | TDropK | TDropV.
+Inductive tclass := THash | TCb | TDropK | TDropV | TClone.
 Definition tclass_eqb (a b : tclass) : bool :=
-  match a, b with THash, THash | TCb, TCb | TDropK, TDropK | TDropV, TDropV => true | _, _ => false end.
+  match a, b with THash, THash | TCb, TCb | TDropK, TDropK | TDropV, TDropV | TClone, TClone => true | _, _ => false end.
 
 (** [Some (c, n)]: the n-th tick of class [c] from now on panics *)
 Definition fuse := option (tclass * nat).
